@@ -171,6 +171,15 @@ EXTERNAL_BASES = {
     'builtins.object': [],
 }
 
+# exception names that are plain aliases of one class
+EXC_ALIASES = {
+    'socket.error': 'builtins.OSError',
+    'gevent.socket.error': 'builtins.OSError',
+    'builtins.IOError': 'builtins.OSError',
+    'builtins.EnvironmentError': 'builtins.OSError',
+    'gevent.timeout.Timeout': 'gevent.Timeout',
+}
+
 BUILTIN_NAMES = {
     'BaseException', 'Exception', 'KeyboardInterrupt', 'SystemExit',
     'GeneratorExit', 'StopIteration', 'ArithmeticError', 'AssertionError',
